@@ -45,7 +45,7 @@
 (***************************************************************************)
 EXTENDS Integers, Sequences, FiniteSets, TLC, Json
 
-CONSTANTS Alphabet,     \* "quick" | "thorough" | "deep" | "small" | "small12" | "multi" : which operation alphabet
+CONSTANTS Alphabet,     \* "quick" | "thorough" | "deep" | "small" | "small12" | "multi" | "special" : which operation alphabet
           Mode,         \* "cover" | "seq" | "walk"
           MaxOps,       \* length of the operation sequences
           Legacy        \* subset of {"exact-keys", "empty-subfield", "add-unassigned", "unset-ws-truncates"}: falco before the
@@ -56,12 +56,13 @@ CONSTANTS Alphabet,     \* "quick" | "thorough" | "deep" | "small" | "small12" |
 Str(s) == s                      \* values are sequences of one-character strings
 Q  == "\""
 NL == "\n"
+BS == "\\"
 WS == {" ", NL}
 Sep == ","
 
 \* header names: spelling |-> canonical name (net/http.CanonicalHeaderKey)
 Spellings == CASE Alphabet = "quick" -> <<"Foo", "fOO", "X-Bar">>
-               [] Alphabet \in {"small", "small12", "multi"} -> <<"Foo", "fOO">>
+               [] Alphabet \in {"small", "small12", "multi", "special"} -> <<"Foo", "fOO">>
                [] OTHER -> <<"Foo", "fOO", "FOO", "X-Bar", "x-bar">>
 \* the objects of one context ("_" = the object is a replay dimension)
 Objs == IF Alphabet = "multi" THEN <<"req", "bereq", "beresp", "obj", "resp">> ELSE <<"_">>
@@ -71,12 +72,12 @@ Canons == {"Foo", "X-Bar"}
 SpSet == {Spellings[i] : i \in 1..Len(Spellings)}
 \* the spellings operations are written through (reads go through all of them)
 WriteSp == CASE Alphabet = "quick" -> {"Foo", "fOO", "X-Bar"}
-             [] Alphabet \in {"small", "small12", "multi"} -> {"Foo", "fOO"}
+             [] Alphabet \in {"small", "small12", "multi", "special"} -> {"Foo", "fOO"}
              [] OTHER -> {"Foo", "fOO", "X-Bar", "x-bar"}
 MainSp == {n \in WriteSp : Canon(n) = "Foo"}
 
 \* sub-field keys; "A" is another spelling of "a" (the pattern of field.go is case-insensitive)
-Keys == IF Alphabet \in {"small", "small12", "multi"} THEN << <<"a">>, <<"A">> >> ELSE << <<"a">>, <<"A">>, <<"b">>, <<"a", "b">> >>
+Keys == IF Alphabet \in {"small", "small12", "multi"} THEN << <<"a">>, <<"A">> >> ELSE IF Alphabet = "special" THEN << <<"a">>, <<"b">> >> ELSE << <<"a">>, <<"A">>, <<"b">>, <<"a", "b">> >>
 Low(c) == IF c = "A" THEN "a" ELSE IF c = "B" THEN "b" ELSE c
 LowS(q) == [i \in 1..Len(q) |-> Low(q[i])]
 KeySet == {Keys[i] : i \in 1..Len(Keys)}
@@ -96,6 +97,11 @@ vDict == S(<<"a", "=", "x", ",", "b", "=", "y">>)            \* a whole header w
 vDict3 == S(<<"a", "=", "x", ",", "b", "=", "y", ",", "a", "b", "=", "x">>)
 vDictSp == S(<<"a", "=", "x", ",", " ", "a", "b", "=", Q, "x", " ", "y", Q>>)
 
+\* values holding the characters the quoting rule of field.go treats specially, a double quote, and a backslash
+\* before a letter, at the end, before a quote, doubled
+Specials == {S(<<"x", BS, "y">>), S(<<"x", BS>>), S(<<"x", BS, Q, "y">>), S(<<"x", BS, BS, "y">>), S(<<"x", Q, "y">>),
+             S(<<"x", ";", "y">>), S(<<"x", ":", "y">>), S(<<"(", "x", ")">>), S(<<"x", "/", "y">>), S(<<"x", "'", "y">>),
+             S(<<"<", "x", ">">>), S(<<"x", "?">>), S(<<"x", "@", "y">>), S(<<"[", "x", "]">>), S(<<"{", "x", "}">>)}
 WholeVals == CASE Alphabet = "quick" -> {vX, vXsY, vE, vXnY, NULL, vDict3}
                [] Alphabet = "thorough" -> {vX, vY, vE, vXsY, vXcY, vXeY, vXnY, NS, NULL, vDict, vDictSp, vDict3}
                [] OTHER -> {vX, vE, vXsY, NULL, vDict}
@@ -108,7 +114,8 @@ AddVals   == CASE Alphabet = "quick" -> {vX}
                [] Alphabet = "thorough" -> {vX, vE, vXsY, NULL}
                [] OTHER -> {vX, vE}
 \* (no += in random walks: the statement speaks of set / add / unset sequences; += stays in the covers)
-AppVals   == CASE Alphabet = "quick" \/ Mode = "walk" -> {}
+AppVals   == CASE Mode = "walk" -> {}
+               [] Alphabet = "quick" -> {vY}
                [] Alphabet = "thorough" -> {vY, NULL}
                [] OTHER -> {vY}
 
@@ -128,7 +135,11 @@ SmallOps == {Op("set", n, Whole, v) : n \in WriteSp, v \in {vX, vE}} \cup {Op("u
 MultiOps == {[x EXCEPT !.o = ob] : ob \in ObjSet,
                x \in {Op("set", "Foo", Whole, vX), Op("set", "fOO", Whole, vE), Op("unset", "Foo", Whole, NS),
                       Op("add", "Foo", Whole, vX), Op("setf", "Foo", <<"a">>, vX)}}
+SpecialOps == {Op("setf", "Foo", <<"a">>, v) : v \in Specials \cup {vX}}
+              \cup {Op("setf", "Foo", <<"b">>, vX), Op("unsetf", "fOO", <<"a">>, NS), Op("unsetf", "Foo", <<"b">>, NS),
+                    Op("set", "Foo", Whole, vX), Op("unset", "Foo", Whole, NS), Op("app", "Foo", <<"a">>, vY)}
 OpSet == CASE Alphabet = "small" -> SmallOps
+           [] Alphabet = "special" -> SpecialOps
            [] Alphabet = "small12" -> {x \in SmallOps : x.k # <<"A">>}
            [] Alphabet = "multi" -> MultiOps
            [] OTHER -> UNION {OpsOn(n) : n \in WriteSp}
@@ -155,7 +166,6 @@ Val(s) == [ns |-> FALSE, s |-> s]
 (* pattern = (?i)(?:^|,)\s*KEY(?:(?:\s+)?=(?:\s+)?(Q|U))?(?:,|$|\s+)        *)
 (*   Q = (?:"(?:\\"|[^"])+)?"      U = (?:[^,\s]+)?                          *)
 
-BS == "\\"
 \* Scanning (?:\\"|[^"])+ from index i: an escaped quote is preferred over a lone backslash, as many units as
 \* possible.  Result: the index of the quote that ends the greedy scan (0 if the text ends first), preceded in
 \* preference by nothing and followed by the escaped quotes met, latest first (giving one up makes it the closing quote).
@@ -224,7 +234,7 @@ UnsetFieldStr(s, key) ==
   ELSE SubSeq(s, 1, f.start - 1)                                                       \* at the end
 
 \* characters that make setField quote the value (those of them that are in the alphabet)
-QuoteChars == WS \cup {"=", Sep, "(", ")", BS}
+QuoteChars == WS \cup {"=", Sep, "(", ")", BS, "@", "[", "]", "{", "}", "?", "/", ";", ":", "'", "<", ">"}
 SetFieldStr(subj, key, ns, val) ==
   LET s1 == UnsetFieldStr(subj, key)
       sv == IF Has(val, QuoteChars) THEN CutNL(<<Q>> \o Esc(val) \o <<Q>>) ELSE val
@@ -290,8 +300,9 @@ Eq(v) == [t |-> "eq", v |-> v]
 SameV  == [t |-> "same", v |-> NotSet]
 AnyV   == [t |-> "any", v |-> NotSet]
 
-\* what the cell (ob, n, k) must read after operation o; before = what the whole header (ob, n) read before
-Req(o, ob, n, k, before) ==
+\* what the cell (ob, n, k) must read after operation o; before / bc = what the whole header (ob, n) / the cell
+\* itself read before
+Req(o, ob, n, k, before, bc) ==
   IF ob # o.o THEN SameV                                   \* every other object keeps its value
   ELSE IF Canon(n) # Canon(o.n) THEN SameV                 \* every other header keeps its value
   ELSE CASE o.op = "set" ->
@@ -312,13 +323,19 @@ Req(o, ob, n, k, before) ==
               \* statement does not say which line is read
               IF k = Whole /\ before.ns /\ o.v.kind = "str" /\ ~Has(o.v.s, {NL}) THEN Eq(Val(o.v.s)) ELSE AnyV
          [] o.op = "app" ->
-              IF o.k = Whole \/ k = Whole \/ LowS(k) = LowS(o.k) THEN AnyV ELSE SameV
+              \* += on something that reads as not set writes the right-hand side (read-after-set with an
+              \* empty current value); otherwise the result is C07's business
+              LET plain == o.v.kind = "str" /\ ~Has(o.v.s, {NL}) IN
+              IF o.k = Whole THEN (IF k = Whole /\ before.ns /\ plain THEN Eq(Val(o.v.s)) ELSE AnyV)
+              ELSE IF k = Whole THEN AnyV
+              ELSE IF LowS(k) # LowS(o.k) THEN SameV
+              ELSE IF k = o.k /\ bc.ns /\ plain THEN Eq(Val(o.v.s)) ELSE AnyV
 
 Sat(tag, before, after) == CASE tag.t = "eq" -> after = tag.v
                              [] tag.t = "same" -> after = before
                              [] OTHER -> TRUE
 
-ReqOf(o, c) == Req(o, c[1], c[2], c[3], Read(pl, pa, <<c[1], c[2], Whole>>))
+ReqOf(o, c) == Req(o, c[1], c[2], c[3], Read(pl, pa, <<c[1], c[2], Whole>>), Read(pl, pa, c))
 LawHolds ==
   last.op # "none" => \A c \in Cells : Sat(ReqOf(last, c), Read(pl, pa, c), Read(lines, asg, c))
 
@@ -336,7 +353,8 @@ KeyAt(j) == IF j = 1 THEN Whole ELSE Keys[j - 1]
 MRow(LL, AA) == [oi \in 1..Len(Objs) |-> [i \in 1..Len(Spellings) |-> [j \in 1..Len(Keys) + 1 |->
                    Enc(Read(LL, AA, <<Objs[oi], Spellings[i], KeyAt(j)>>))]]]
 RRow(o, LL, AA) == [oi \in 1..Len(Objs) |-> [i \in 1..Len(Spellings) |-> [j \in 1..Len(Keys) + 1 |->
-                   EncTag(Req(o, Objs[oi], Spellings[i], KeyAt(j), Read(LL, AA, <<Objs[oi], Spellings[i], Whole>>)))]]]
+                   EncTag(Req(o, Objs[oi], Spellings[i], KeyAt(j), Read(LL, AA, <<Objs[oi], Spellings[i], Whole>>),
+                              Read(LL, AA, <<Objs[oi], Spellings[i], KeyAt(j)>>)))]]]
 OpJson(o) == [op |-> o.op, o |-> o.o, n |-> o.n, k |-> KeyName(o.k), vk |-> o.v.kind, v |-> Join(o.v.s)]
 
 L0 == [ob \in ObjSet |-> [c \in Canons |-> <<>>]]
